@@ -6,9 +6,11 @@
 // members. Nothing multi-GiB is ever read or written: only holes are that large.
 #include "volworld.h"
 #include "../models/refclm.h"
+#include "../models/reflzh.h"
 #include "Archive/ClmFile.h"
 #include "ResourceManager.h"
 #include "Archive/VolFile.h"
+#include <map>
 #include <memory>
 #include <stdexcept>
 
@@ -36,7 +38,7 @@ struct VolGiant : Family {
 		Line w = mkline("world", "giant");
 		size_t nt = sizeof kTargets / sizeof kTargets[0];
 		static const uint64_t kClmTargets[] = {0x7FFFFFF0ull, 0x7FFFFFFFull, 0x80000000ull, 0x80000001ull, 0xFFFFFD00ull, 0xC0000001ull};
-		bool clm = prop != "C02" && (g_genIndex / nt) % 3 == 2; // every third pass over the target list is a CLM
+		bool clm = prop != "C02" && prop != "C04" && (g_genIndex / nt) % 3 == 2; // every third pass over the target list is a CLM
 		if (clm) w.set("kind", "clm");
 		w.set("target", hex64(clm ? kClmTargets[g_genIndex % 6] : kTargets[g_genIndex % nt])).set("seed", hex64(r.next())).set("lenA", r.chance(1, 4) ? r.below(4) : r.below(400)).set("lenZ", r.chance(1, 4) ? r.below(4) : r.below(600)).set("second", r.below(2));
 		p.world.push_back(w);
@@ -57,8 +59,8 @@ struct VolGiant : Family {
 
 	void execute(const Plan& plan, RunCtx& ctx) override {
 		const std::string P = plan.property;
-		const std::string clListing = P == "C02" ? "C02.foreign-listing" : P == "C05" ? "C05.extent" : P == "C13" ? "C13.backend-equal" : "C17.lookup-agree";
-		const std::string clBytes = P == "C02" ? "C02.foreign-payload" : P == "C05" ? "C05.extent" : P == "C13" ? "C13.confined" : "C17.loose-first";
+		const std::string clListing = P == "C02" ? "C02.foreign-listing" : P == "C05" ? "C05.extent" : P == "C13" ? "C13.backend-equal" : P == "C04" ? "C04.extract-equals" : "C17.lookup-agree";
+		const std::string clBytes = P == "C02" ? "C02.foreign-payload" : P == "C05" ? "C05.extent" : P == "C13" ? "C13.confined" : P == "C04" ? "C04.extract-equals" : "C17.loose-first";
 		uint64_t target = 0, seed = 1, lenA = 0, lenZ = 0;
 		bool second = false;
 		for (auto& l : plan.world) if (l.verb == "giant") { target = l.u("target"); seed = l.u("seed", 1); lenA = l.u("lenA"); lenZ = l.u("lenZ"); second = l.u("second") != 0; }
@@ -70,7 +72,20 @@ struct VolGiant : Family {
 		// names sort in the listed order: a..., f0.., f1.., z0..., z1...
 		std::vector<ref::VolMember> ms;
 		std::vector<uint64_t> virt;
-		auto small = [&](const std::string& name, uint64_t len) { ref::VolMember m; m.name = name; m.stored = prngBytes(r.next(), static_cast<size_t>(len)); m.size = static_cast<uint32_t>(len); ms.push_back(m); virt.push_back(0); };
+		std::map<size_t, std::vector<uint8_t>> decoded; // LZH members: what extraction must write (reference decoder)
+		bool wantLzh = P == "C04" || (seed & 3) == 0;
+		auto small = [&](const std::string& name, uint64_t len) {
+			ref::VolMember m; m.name = name;
+			std::vector<uint8_t> payload = prngBytes(r.next(), static_cast<size_t>(len));
+			if (wantLzh && name[0] == 'z') {
+				for (auto& c : payload) c = static_cast<uint8_t>('a' + c % 5);
+				m.stored = ref::lzhEncode(ref::tokenize(payload, r.next()));
+				m.kind = 0x103;
+				decoded[ms.size()] = ref::lzhDecode(m.stored).out;
+				m.size = static_cast<uint32_t>(decoded[ms.size()].size());
+			} else { m.stored = payload; m.size = static_cast<uint32_t>(len); }
+			ms.push_back(m); virt.push_back(0);
+		};
 		small("a" + randName(r, 1, 6, false) + ".dat", lenA);
 		size_t firstFiller = ms.size();
 		const uint64_t kMaxFiller = 0x7FFFFF00ull;
@@ -78,7 +93,7 @@ struct VolGiant : Family {
 		for (size_t i = 0; i < nFill; ++i) { ref::VolMember m; m.name = "f" + std::to_string(i) + randName(r, 1, 4, false) + ".bin"; ms.push_back(m); virt.push_back(4); }
 		size_t tail = ms.size();
 		small("z0" + randName(r, 1, 6, false) + ".txt", lenZ);
-		bool haveSecond = second && target + 8 + ((lenZ + 3) & ~3ull) <= 0xFFFFFFFCull;
+		bool haveSecond = second && target + 8 + ((ms[tail].stored.size() + 3) & ~3ull) <= 0xFFFFFFFCull;
 		if (haveSecond) small("z1" + randName(r, 1, 6, false) + ".txt", 1 + r.below(300));
 		// choose the filler lengths so that the tail's block offset is exactly the target
 		ref::VolSparseImage probe = ref::encodeVolSparse(ms, virt);
@@ -97,6 +112,8 @@ struct VolGiant : Family {
 		std::string path = std::string(kDir) + "/big.vol";
 		disk::putPieces(path, im.pieces, im.total);
 		ctx.count(target + 8 >= (1ull << 32) ? "probe.tail_payload_beyond_4GiB" : target + 8 + lenZ > (1ull << 31) ? "probe.tail_payload_beyond_2GiB" : "probe.tail_payload_below_2GiB");
+		if (!decoded.empty()) ctx.count("probe.lzh_member_at_a_large_offset");
+		const std::string clExtract = P == "C04" ? "C04.extract-equals" : clBytes;
 		ctx.schedNote(hex64(target));
 		std::unique_ptr<Archive::VolFile> vol;
 		std::string what;
@@ -122,8 +139,8 @@ struct VolGiant : Family {
 					uint32_t sz = 0;
 					Archive::CompressionType ct = Archive::CompressionType::Uncompressed;
 					o = callLib(plan, [&] { nm = vol->GetName(i); sz = vol->GetSize(i); ct = vol->GetCompressionCode(i); }, &what);
-					uint64_t wantSize = virt[i] ? virt[i] : ms[i].stored.size();
-					if (o != OkOut || nm != ms[i].name || sz != wantSize || ct != Archive::CompressionType::Uncompressed) ctx.fail(clListing, "listing of member " + std::to_string(i) + " gives '" + nm + "', size " + std::to_string(sz) + "; the archive records '" + ms[i].name + "', size " + std::to_string(wantSize) + " (" + what + ")");
+					uint64_t wantSize = virt[i] ? virt[i] : ms[i].size;
+					if (o != OkOut || nm != ms[i].name || sz != wantSize || static_cast<int>(ct) != ms[i].kind) ctx.fail(clListing, "listing of member " + std::to_string(i) + " gives '" + nm + "', size " + std::to_string(sz) + "; the archive records '" + ms[i].name + "', size " + std::to_string(wantSize) + " (" + what + ")");
 				}
 				ctx.event("listing");
 			} else if (op.verb == "lookup") {
@@ -152,7 +169,8 @@ struct VolGiant : Family {
 				std::string dest = "_x/e" + std::to_string(oi) + ".bin";
 				o = callLib(plan, [&] { if (op.u("byname")) static_cast<Archive::ArchiveFile&>(*vol).ExtractFile(q, dest); else vol->ExtractFile(mi, dest); }, &what);
 				std::vector<uint8_t> f;
-				if (o != OkOut || !disk::get(dest, f) || f != m.stored) ctx.fail(clBytes, "ExtractFile of " + where + " failed or wrote other bytes (" + what + ")");
+				const std::vector<uint8_t>& wantFile = decoded.count(mi) ? decoded[mi] : m.stored;
+				if (o != OkOut || !disk::get(dest, f) || f != wantFile) ctx.fail(clExtract, "ExtractFile of " + where + (decoded.count(mi) ? " (LZH: the reference decoder's output is expected)" : "") + " failed or wrote other bytes (" + what + ")");
 				ctx.event("extract " + std::to_string(mi));
 			} else if (op.verb == "resource") {
 				if (!rm) {
